@@ -30,6 +30,7 @@ var interpolateTypeCastMapping = map[tree.Path]interp.Cast{
 	servicePath("configs", tree.PathMatchList, "mode"):                                                                             toInt,
 	servicePath("blkio_config", "weight"):                                                                                          toInt,
 	servicePath("blkio_config", "weight_device", tree.PathMatchList, "weight"):                                                     toInt,
+	servicePath("build", "secrets", tree.PathMatchList, "mode"):                                                                    toInt,
 	servicePath("build", "ulimits", tree.PathMatchAll):                                                                             toInt,
 	servicePath("build", "ulimits", tree.PathMatchAll, "hard"):                                                                     toInt,
 	servicePath("build", "ulimits", tree.PathMatchAll, "soft"):                                                                     toInt,
